@@ -190,7 +190,16 @@ def run(ck, prop, reps=2):
                     ck.check(torch.equal(_vals(X), v1), "history", regime, name, "operand_changed", wit)
                 # (b) the operand is updated in place to new values (three ways), then used again
                 turn += 1
-                how = ["copy_", "index", "retract", "data", "numpy"][turn % 5]
+                how = ["copy_", "index", "retract", "data", "numpy", "view-add_"][turn % 6]
+                if how == "view-add_" and not (kx in lie.GRPS and len(shape) >= 1):
+                    how = "retract"
+                base = None
+                if how == "view-add_":
+                    # the operand is a view (all but the first item) of a larger tensor and is retracted in place through that view:
+                    # the memory of the larger tensor holds the new element afterwards
+                    base = _fresh(kx, torch.cat([_make(kx, rng, (1,) + tuple(shape[1:]), dtype), v1], 0))
+                    base0 = _vals(base)
+                    X = base[1:]
                 if how == "numpy":
                     # the operand shares its memory with a numpy array that the caller refills (no autograd version bump)
                     arr = v1.numpy().copy()
@@ -207,6 +216,14 @@ def run(ck, prop, reps=2):
                         X.copy_(_fresh(kx, v2) if kx != "R" else v2)
                     elif how == "index":
                         (X.tensor() if isinstance(X, pp.LieTensor) else X)[...] = v2
+                    elif how == "view-add_":
+                        d = _fresh(L.GRP2ALG[kx], _make(L.GRP2ALG[kx], rng, shape, dtype))
+                        want = _vals(d.Exp() @ _fresh(kx, v1))
+                        X.add_(d)
+                        v2 = want
+                        ck.check(torch.equal(_vals(base)[:1], base0[:1]), "history", regime, f"{kx}.add_", "in_place_update_through_a_view_touched_other_items", wit)
+                        ck.ratio("history", regime, _close(_vals(base)[1:], want, u), 1.0, f"{kx}.add_",
+                                 "in_place_update_through_a_view_did_not_reach_the_memory_of_the_base_tensor", dict(wit, update=how))
                     else:
                         if kx in lie.GRPS:
                             d = _fresh(L.GRP2ALG[kx], _make(L.GRP2ALG[kx], rng, shape, dtype))
@@ -314,6 +331,8 @@ def run(ck, prop, reps=2):
                          {"layout": lay, "dtype": dn, "base_after": now.tolist()})
                 ck.mark("layout/identity_/" + lay)
         ck.require("layout/identity_/transposed", "layout/identity_/column-slice")
+    if prop in ("C02", "C03", "C05"):
+        ck.require("history/view-add_")
     ck.require("history/data", "history/numpy", "layout/no_grad", "layout/parameter", "layout/deepcopy", "layout/pickle")
     if prop in ("C03", "C05"):
         ck.require("layout/aux_requires_grad", "layout/both_require_grad")
